@@ -2,6 +2,7 @@ import ClusterVerif.Spec.C08
 import Mathlib.Data.List.Basic
 import Mathlib.Data.List.Nodup
 import Mathlib.Data.List.Perm.Basic
+import Mathlib.Tactic.IntervalCases
 /-! C08 — helper lemmas for Props/C08. -/
 namespace CV.C08
 theorem wrap32_id (i : Int) (h : inInt32 i = true) : wrap32 i = i := by
@@ -230,32 +231,101 @@ theorem expiryKey_trunc (t : Time) : expiryKey (truncExpiry t) = expiryKey t := 
     · simp [e]
     · have e' : (t.sec == Time.zero.sec) = false := by simpa using e
       simp [e', hs]
-/-- a filter that holds none or all of the statuses of each named composite (error, queued) -/
-def noPartialComposite (st : Nat) : Bool :=
-  (st &&& errorMask == 0 || st &&& errorMask == errorMask) && (st &&& queuedMask == 0 || st &&& queuedMask == queuedMask)
+/-! ### TrackerStatus.String → TrackerStatusFromString, for every filter of known statuses -/
 
-def allBelow (p : Nat → Bool) : Nat → Bool
-  | 0 => true
-  | n + 1 => p n && allBelow p n
+theorem names_ok : ∀ kv ∈ statusNames, statusOfName kv.2 = kv.1 := by
+  have h : (statusNames.all fun kv => statusOfName kv.2 == kv.1) = true := by decide
+  intro kv hm
+  have := List.all_eq_true.mp h kv hm
+  simpa using this
 
-theorem allBelow_spec (p : Nat → Bool) : ∀ n, allBelow p n = true → ∀ k, k < n → p k = true
-  | 0, _, k, hk => absurd hk (Nat.not_lt_zero k)
-  | n + 1, h, k, hk => by
-    simp only [allBelow, Bool.and_eq_true] at h
-    rcases Nat.lt_succ_iff_lt_or_eq.mp hk with h' | h'
-    · exact allBelow_spec p n h.2 k h'
-    · rw [h']; exact h.1
+theorem foldl_names (l : List (Nat × String)) (hl : ∀ kv ∈ l, statusOfName kv.2 = kv.1) :
+    ∀ acc, (l.map (·.2)).foldl (fun acc n => acc ||| statusOfName n) acc = (l.map (·.1)).foldl (· ||| ·) acc := by
+  induction l with
+  | nil => intro acc; rfl
+  | cons kv rest ih =>
+    intro acc
+    simp only [List.map_cons, List.foldl_cons]
+    rw [hl kv (List.mem_cons_self ..)]
+    exact ih (fun x hx => hl x (List.mem_cons_of_mem _ hx)) _
 
-set_option maxRecDepth 1000000 in
-theorem status_table_partial :
-    allBelow (fun st => !(knownStatusFilter st && noPartialComposite st) || statusRoundtrip st == st) 8191 = true := by
-  decide
+def statusKeysNZ : List Nat := (statusNames.map (·.1)).filter (· != 0)
 
-theorem known_lt (st : Nat) (h : knownStatusFilter st = true) : st < 8191 := by
-  have : st &&& statusMask = st := by simpa [knownStatusFilter] using h
-  have h2 : st &&& statusMask ≤ statusMask := Nat.and_le_right
-  rw [this] at h2
-  unfold statusMask at h2
-  omega
+theorem foldl_or_testBit (l : List Nat) : ∀ acc i, (l.foldl (· ||| ·) acc).testBit i = (acc.testBit i || l.any (·.testBit i)) := by
+  induction l with
+  | nil => intro acc i; simp
+  | cons k rest ih =>
+    intro acc i
+    simp only [List.foldl_cons, List.any_cons, ih, Nat.testBit_or, Bool.or_assoc]
 
+theorem sub_testBit {st k i : Nat} (h : st &&& k = k) (hk : k.testBit i = true) : st.testBit i = true := by
+  have : (st &&& k).testBit i = true := by rw [h]; exact hk
+  rw [Nat.testBit_and] at this
+  simp only [Bool.and_eq_true] at this
+  exact this.1
+
+theorem and_two_pow_of_testBit {st i : Nat} (h : st.testBit i = true) : st &&& 2 ^ i = 2 ^ i := by
+  apply Nat.eq_of_testBit_eq
+  intro j
+  rw [Nat.testBit_and, Nat.testBit_two_pow]
+  by_cases e : i = j
+  · subst e; simp [h]
+  · simp [e]
+
+theorem mask_bits {i : Nat} (h : (8190 : Nat).testBit i = true) : 1 ≤ i ∧ i ≤ 12 := by
+  have hlt : i < 13 := by
+    by_contra hc
+    have : (8190 : Nat) < 2 ^ i := lt_of_lt_of_le (by decide : (8190:Nat) < 2 ^ 13) (Nat.pow_le_pow_right (by decide) (by omega))
+    rw [Nat.testBit_lt_two_pow this] at h
+    exact Bool.false_ne_true h
+  refine ⟨?_, by omega⟩
+  by_contra hc
+  have : i = 0 := by omega
+  subst this
+  revert h; decide
+
+theorem or_contained (st : Nat) (hk : st &&& statusMask = st) :
+    ((statusKeysNZ.filter (fun k => st &&& k == k))).foldl (· ||| ·) 0 = st := by
+  apply Nat.eq_of_testBit_eq
+  intro i
+  rw [foldl_or_testBit]
+  simp only [Nat.zero_testBit, Bool.false_or]
+  cases hb : st.testBit i with
+  | false =>
+    rw [List.any_eq_false]
+    intro k hkm hki
+    rw [List.mem_filter] at hkm
+    have hs : st &&& k = k := by simpa using hkm.2
+    have := sub_testBit hs hki
+    rw [hb] at this; exact Bool.false_ne_true this
+  | true =>
+    rw [List.any_eq_true]
+    have hm : (8190 : Nat).testBit i = true := by
+      have : (st &&& statusMask).testBit i = true := by rw [hk]; exact hb
+      rw [Nat.testBit_and] at this
+      simp only [Bool.and_eq_true] at this
+      exact this.2
+    obtain ⟨h1, h12⟩ := mask_bits hm
+    refine ⟨2 ^ i, ?_, Nat.testBit_two_pow_self⟩
+    rw [List.mem_filter]
+    refine ⟨?_, by simpa using and_two_pow_of_testBit hb⟩
+    interval_cases i <;> decide
+
+theorem keys_filter (st : Nat) :
+    (statusNames.filter (fun kv => kv.1 != 0 && st &&& kv.1 == kv.1)).map (·.1) = statusKeysNZ.filter (fun k => st &&& k == k) := by
+  simp [statusKeysNZ, List.filter_map, List.filter_filter, Function.comp_def, Bool.and_comm]
+
+/-- String then FromString gives back every filter of known statuses -/
+theorem statusRoundtrip_known (st : Nat) (hk : knownStatusFilter st = true) : statusRoundtrip st = st := by
+  have hk' : st &&& statusMask = st := by simpa [knownStatusFilter] using hk
+  unfold statusRoundtrip statusStrings statusFromNames
+  cases h : statusNames.find? (fun kv => kv.1 == st) with
+  | some kv =>
+    have hm : kv ∈ statusNames := List.mem_of_find?_eq_some h
+    have he : kv.1 = st := by simpa using List.find?_some h
+    simp [names_ok kv hm, he]
+  | none =>
+    simp only []
+    rw [foldl_names _ (fun kv hkv => names_ok kv (List.mem_filter.mp hkv).1) 0, keys_filter]
+    exact or_contained st hk'
 end CV.C08
